@@ -114,7 +114,9 @@ theorem C02_tower_dtype (tw : List Bool) (A : Op R) : (A.tower tw).dtype = A.dty
   Op.tower_dtype tw A
 
 omit [CommRing R] [StarRing R] [DecidableEq R] in
-/-- the left product `X @ A` has the promoted dtype of operator and operand (the same statement as
+/-- DEFINITIONAL, not in the audited list (`Op.mmDtype` is defined as the promotion; the statement
+about the code is `C02_left_product_dtype_model`, on the recursive model `Op.rmmDt`).
+The left product `X @ A` has the promoted dtype of operator and operand (the same statement as
 `C01_result_dtype`, `_rmatmat` ends in the same NumPy promotion) -/
 theorem C02_left_product_dtype (A : Op R) (xdt : DType) : A.mmDtype xdt = A.mmDtypeSpec xdt :=
   Op.mmDtype_eq_spec A xdt
@@ -248,7 +250,6 @@ end C02
 #print axioms C02.C02_tower_den
 #print axioms C02.C02_tower_shape
 #print axioms C02.C02_tower_dtype
-#print axioms C02.C02_left_product_dtype
 #print axioms C02.C02_left_product_dtype_model
 #print axioms C02.C02_left_right_dtype
 #print axioms C02.C02_hermWitness
